@@ -17,7 +17,7 @@ RULE = ('generate_correlated: every non-constant source column of length 4 over 
         'index selection of <= 3 columns; dataset_info after every sequence of <= 3 generator calls; generate_labels for n in {2,3,4}, p scalar / list / array on tie-free decision values, every '
         'composition of 1 into n parts with step 0.1; generate_noise categorical and missing for p in {0,0.2,0.5,0.99} with every choice of cells under a controlled generator (n<=4) and over a seed '
         'window beyond; downsample_dataset for every n <= minority size x seeds x reshuffle. distinct_nontrivial = cases with a non-empty declared effect (>=1 column added / >=2 classes / >=1 cell flipped)')
-ASSUMPTIONS = ['collinear or constant normal draws (probability zero) are excluded from the menu', 'labels 0..k-1 as produced by generate_labels; missing marker representable in the data dtype',
+ASSUMPTIONS = ['collinear or constant normal draws (probability zero) are excluded from the menu', 'missing marker representable in the data dtype',
                'Pearson agreement within 1e-6']
 
 RS = [-0.999, -0.9, -0.5, -0.1, 0.1, 0.5, 0.8, 0.99, 0.995]
@@ -416,6 +416,9 @@ NOISE_SETS = [
     (np.array([[0, 5], [1, 5], [2, 6]], dtype=np.int32), np.array([0, 0, 1])),
     (np.array([[0, 5], [1, 6], [2, 7], [3, 8]], dtype=np.int32), np.array([1, 0, 2, 0])),
     (np.array([[0], [0], [1], [2]], dtype=np.int32), np.array([0, 1, 1, 1])),
+    # class labels that are not 0..k-1 (a class can be empty when cut points tie; users may label classes 1/2)
+    (np.array([[0, 5], [1, 5], [2, 6], [0, 7]], dtype=np.int32), np.array([0, 0, 2, 2])),
+    (np.array([[0, 5], [1, 6], [2, 6], [0, 7]], dtype=np.int32), np.array([1, 2, 1, 2])),
     # real-valued data (as after generate_correlated / a nonlinear combination appended a float column)
     (np.array([[0.0, 5.5], [1.0, 5.5], [2.0, 6.25], [0.0, 7.0]], dtype=np.float64), np.array([0, 0, 1, 1])),
     (np.array([[0.5], [0.5], [1.5], [2.5]], dtype=np.float64), np.array([0, 1, 1, 0])),
